@@ -2,6 +2,18 @@
 import gen
 
 PROPS = {
+    "C07": dict(
+        files=[("op", "c07_op.rs")], generated_files=[],
+        generators=[gen.gen_c07],
+        bounds="operand shape pairs (R1), payloads symbolic; strings <= 2 symbolic chars; containers [s] / [] / {}",
+        out="numeric meaning of strings beyond the corpus; arrays longer than 1 / nested; evaluation through apply",
+    ),
+    "C09": dict(
+        files=[("op", "c09_op.rs")],
+        generators=[gen.gen_c09],
+        bounds="operand shape pairs (R1), payloads symbolic; strings <= 2 symbolic chars; containers [s] / [] / {}",
+        out="numeric meaning of strings beyond the corpus; arrays longer than 1 / nested; evaluation through apply",
+    ),
     "EXP": dict(files=[("op", "exp_op.rs")]),
     "C03": dict(
         files=[("op", "c03_op.rs")],
